@@ -195,8 +195,12 @@ func (t DataType) goValue(endian binary.ByteOrder, bs []byte) (interface{}, erro
 		// User must set precision and scale
 		return dec, nil
 	case DATE, DATEN:
-		if len(bs) == 0 {
+		switch len(bs) {
+		case 0:
 			return nil, nil
+		case 4:
+		default:
+			return nil, fmt.Errorf("invalid length for %v: %d", t, len(bs))
 		}
 
 		x := int32(endian.Uint32(bs))
@@ -246,8 +250,12 @@ func (t DataType) goValue(endian binary.ByteOrder, bs []byte) (interface{}, erro
 			return nil, fmt.Errorf("invalid length for %v: %d", t, len(bs))
 		}
 	case BIGDATETIMEN:
-		if len(bs) == 0 {
+		switch len(bs) {
+		case 0:
 			return nil, nil
+		case 8:
+		default:
+			return nil, fmt.Errorf("invalid length for %v: %d", t, len(bs))
 		}
 
 		dur := asetime.ASEDuration(endian.Uint64(bs))
